@@ -45,6 +45,9 @@ GRAMS = {
     # a rule whose value is a bare scalar of varying type and equal value (True / 1 / 1.0): a cache keyed by value would confuse them
     # node classes named like grammar-model classes: they must not disturb later reloads of grammar models from JSON
     'g9': "start::Rule: {t+:tok}+ $ ;\n\ntok::Token: /[a-z]+/ ;\n",
+    # constants that name things: what a constant can see must not depend on what was parsed before
+    'g10': "start: secret=/[a-z0-9]+/ c=`{secret}!` $ ;\n",
+    'g11': "start: n=/[a-z0-9]+/ c=`{secret}?` d=`x{n}y` $ ;\n",
     'g8': "start: {v}* $ ;\n\nv: 'b' @:@bool | 'i' @:@int | 'f' @:@float ;\n",
 }
 TEXTS = ['a b b', 'a', 'x, y', 'x', 'foo if', 'Foo BAR', '1+2+3', '1+', 'a b', 'a\nb', 'x 1', 'A B', 'let q r', 'let let', '', 'x,', 'A',
@@ -287,7 +290,8 @@ def run_history(history):
     return result
 
 
-OWN_TEXTS = {'g8': ['i 1 b true f 1.0', 'b true i 1', 'f 1.0 b true i 1', 'i 0 b false f 0.0', 'b false i 0'],
+OWN_TEXTS = {'g1': ['a b b', 'a'], 'g5': ['a b', 'x'], 'g6': ['x 1', '1'], 'g10': ['hunter2', 'abc'], 'g11': ['abc', 'zz9'],
+             'g8': ['i 1 b true f 1.0', 'b true i 1', 'f 1.0 b true i 1', 'i 0 b false f 0.0', 'b false i 0'],
              'g4': ['1+2+3', '1+'], 'g7': ['let q r', 'let let'], 'g3': ['foo if', 'Foo BAR'], 'g2': ['x, y', 'x', 'x,'], 'g9': ['foo bar', 'x']}
 
 
@@ -302,6 +306,11 @@ def gen_history(rnd):
     n = rnd.randint(3, 12)
     hist = []
     models, parsers = {}, {}
+    if rnd.random() < 0.2:
+        # two grammars that declare a node class of the same name with different bases (g2: Item, g6: Item::Other), both building models
+        ga, gb = rnd.choice([('g6', 'g2'), ('g2', 'g6')])
+        for g in (ga, gb):
+            hist.append(('parse', g, rnd.choice(OWN_TEXTS[g][:2] if g == 'g2' else OWN_TEXTS[g][:1]), None, True, 'none'))
     for step in range(n):
         c = rnd.random()
         if c < 0.3 or not (models or parsers):
